@@ -2,7 +2,7 @@ CONSTANTS
   Rotations = {0}
   Widths = {1}
   TransportSets = {{"grpc"}, {"rest"}, {"grpc", "rest"}}
-  Namings = {"plain", "kw", "nons", "host"}
+  Namings = {"plain", "kw", "nons", "host", "svchost"}
   NSvcs = {1, 2}
   ReqPkgs = {"own"}
   Flattens = {FALSE, TRUE}
